@@ -31,7 +31,7 @@ COORDDEG = r'-?' + DIGITS + r'(\.' + DIGITS + r')?'
 LENIENT = {
     # what hszinc's reader accepts beyond the core grammar; none of these is one of the structural faults C09 lists
     # (each is listed in the evidence of C09 as a tolerated leniency):
-    'digits may start with "_"': None, 'empty reference name': None, 'coordinate degrees may omit digits': None,
+'empty reference name': None, 'coordinate degrees may omit digits': None,
     'date-time without UTC offset': None, 'UTC+n zone names': None, 'XStr type name may start with a lower-case letter or digit': None,
     'a lone separator in an otherwise empty list': None, 'dict tags not separated by a blank': None,
     'any Unicode decimal digit where dates, times, offsets and reference names expect a digit': None,
@@ -40,7 +40,7 @@ LENIENT = {
 
 def kinds(ver3, lenient=False):
     if lenient:
-        d = r'[0-9_]+'
+        d = DIGITS
         dec = r'-?' + d + r'(\.' + d + r')?([eE][+-]?' + d + r')?'
         cdeg = r'-?(' + d + r')?(\.' + d + r')?'
         k = {
